@@ -198,6 +198,21 @@ def run(prog, chk):
         raise Broken("fewer than 4 explicit next_char moves found")
 
 
+    r5 = chk.rule("R5-patched-terminator-restored", "a NUL written into the scan buffer after a block/frame code is restored before "
+                  "every exit on which parsing goes on (recovery paths included)", primary=False, floor=2)
+    from .. import memrules
+    if memrules.patched_byte_restored(prog, r5) < 2:
+        raise Broken("fewer than 2 save/patch/restore sites found in parser.c")
+
+
+    r6 = chk.rule("R6-unterminated-token-keeps-its-tail", "when a scan function has reported an unterminated string / text field at end of "
+                  "input and recovers by taking the whole tail as the token, no closing delimiter is subtracted from the token "
+                  "length: every definition of the subtracted variable that reaches the length computation through that report "
+                  "is 0", primary=False, floor=3)
+    if unterminated_rule(prog, r6) < 3:
+        raise Broken("fewer than 3 scan functions with an end-of-input recovery found")
+
+
 # moves of next_char whose column accounting happens elsewhere, each with its reason
 COLUMN_EXEMPT = {
     ("scan_ws", 1): "the for-increment advances over every character; the loop body counts blanks and resets the column at terminators",
@@ -357,4 +372,74 @@ def overlength_rule(prog, rule):
                                    "already includes" if counted else "does not include",
                                    (first_bad - (1 if counted else 0)) if first_bad < want else limit + 1,
                                    "is reported although the limit is %d" % limit if first_bad < want else "escapes the report"))
+    return n
+
+
+def unterminated_rule(prog, rule):
+    """Reaching definitions of the `delim_size`-like variable subtracted in TVALUE_SETLENGTH(.. - v), restricted to paths that
+    pass the end-of-input error report (CIF_UNCLOSED_TEXT / CIF_MISSING_ENDQUOTE) of the same function."""
+    codes = {prog.macro_int("CIF_UNCLOSED_TEXT"), prog.macro_int("CIF_MISSING_ENDQUOTE")}
+    n = 0
+    for fn in prog.all_functions():
+        if fn.unit != "parser.c" or not fn.name.startswith("scan_"):
+            continue
+        reports = [(b.id, i) for (b, i, r, c) in fn.eval_sites("call")
+                   if not c.get("callee") and c.get("args") and const(c["args"][0]) in codes]
+        uses = []
+        for (b, i, r, a) in fn.eval_sites("asg"):
+            if "TVALUE_SETLENGTH" in (a.get("ms") or []) and (path(strip(a.get("lhs"))) or "").endswith("tvalue_length"):
+                rr = strip(a.get("rhs"))
+                if isinstance(rr, dict) and rr.get("k") == "bin" and rr.get("op") == "-" and path(strip(rr.get("rhs"))):
+                    uses.append((b.id, i, path(strip(rr.get("rhs"))), a))
+        if not reports or not uses:
+            continue
+        for (ub, ui, var, ua) in uses:
+            defs = []
+            for (b, i, r, x) in fn.eval_sites():
+                if x.get("k") == "asg" and x.get("op") == "=" and path(strip(x.get("lhs"))) == var:
+                    defs.append((b.id, i, const(x.get("rhs")), x.get("l")))
+                elif x.get("k") == "decl":
+                    for v in x.get("vars", []):
+                        if v["name"] == var and v.get("init") is not None:
+                            defs.append((b.id, i, const(v["init"]), x.get("l")))
+            if not defs:
+                continue
+            n += 1
+            def_blocks = {d[0] for d in defs}
+            bad = None
+            for (rb, ri) in reports:
+                # definitions reaching the report: the last one in the report's block before it, else those whose block reaches
+                # the report's block without passing another defining block
+                in_blk = [d for d in defs if d[0] == rb and d[1] < ri]
+                if in_blk:
+                    reaching = [max(in_blk, key=lambda d: d[1])]
+                else:
+                    reaching = [d for d in defs if rb in cfgq.reach(fn, [d[0]], def_blocks - {d[0]}) or d[0] == rb and False]
+                    # keep only the last definition of each block
+                    last = {}
+                    for d in reaching:
+                        if d[0] not in last or d[1] > last[d[0]][1]:
+                            last[d[0]] = d
+                    reaching = list(last.values())
+                # from the report to the use: a later definition overrides
+                after_blk = [d for d in defs if d[0] == rb and d[1] > ri]
+                if after_blk:
+                    eff = [min(after_blk, key=lambda d: d[1])] if ub != rb or ui > after_blk[0][1] else reaching
+                else:
+                    on_way = [d for d in defs if d[0] != rb and d[0] in cfgq.reach(fn, [rb]) and (ub in cfgq.reach(fn, [d[0]]) or d[0] == ub)]
+                    if ub in cfgq.reach(fn, [rb], {d[0] for d in on_way}) or ub == rb:
+                        eff = reaching + on_way       # some path avoids the later definitions
+                    else:
+                        eff = on_way
+                for d in eff:
+                    if d[2] != 0:
+                        bad = d
+            key = "%s:%s" % (fn.name, var)
+            if bad:
+                rule.violation(fn.file, fn.name, ua.get("l"), "tail-shortened-after-unterminated:%s" % fn.name,
+                               "after the end-of-input report the token length is computed as `... - %s`, and the definition `%s = %s` "
+                               "(L%s) reaches that computation on such a path: the recovered token loses characters that were never a "
+                               "closing delimiter (the unsigned length wraps when fewer are left)" % (var, var, bad[2], bad[3]))
+            else:
+                rule.ok(key, "only 0 reaches the length computation after the end-of-input report")
     return n
